@@ -171,6 +171,7 @@ def read_lines(path):
 def run_impl(binary, ops_path, out_path, stats_path=None, timeout=3000, extra=None):
     cmd = [binary, "run", "--ops", ops_path, "--out", out_path]
     if stats_path: cmd += ["--stats", stats_path]
+    if os.path.exists(out_path + ".oracle"): os.remove(out_path + ".oracle")
     if extra: cmd += extra
     rc, out, dt = sh(cmd, timeout=timeout)
     if rc != 0:
